@@ -6,13 +6,16 @@ import datagen as dg
 from common import xr, xvec, from_xvec, tokens_close
 
 ID = "C01"
-TARGETS = ["Proofs.C01", "Proofs.DataRefine"]
+TARGETS = ["Proofs.C01", "Proofs.DataRefine", "Proofs.DataFields"]
 GEN_PREFIXES = []
 THEOREMS = {"Proofs.C01": ["VerifModel.C01." + t for t in [
     "C01_propagate_cell", "C01_propagate_nan_iff", "C01_propagate_keeps", "C01_same_validity",
     "C01_same_cases", "cut_shape", "C01_obs_borrowed", "C01_noninterference", "anyNanAt_set"]],
     "Proofs.DataRefine": ["VerifModel.DataRefine." + t for t in [
-        "getScores_refines", "C01_same_case_set", "getScores_over_specCases"]]}
+        "getScores_refines", "C01_same_case_set", "getScores_over_specCases"]],
+    "Proofs.DataFields": ["VerifModel.DataFields." + t for t in [
+        "resolved_field?", "resolved_readsAs", "loadAllF_resolved", "init_resolved", "getScoresF_refines",
+        "obs_agree_at", "C01_obs_identical_end_to_end"]]}
 TRUSTED_BASE = [
     "Lean 4.33 kernel; axioms propext, Classical.choice, Quot.sound only",
     "Model/Data.lean: hand-written pure model of Data.__init__/_get_score/get_scores (nested lists for 3-D "
@@ -20,34 +23,67 @@ TRUSTED_BASE = [
     "real code by the data.req correspondence stream on every run",
     "harness/datagen.py: in-memory verif.input.Input subclass (no file I/O on this stream) and the coordinate-based "
     "oracle written from the README's fair-comparison paragraph",
+    "harness/datagen.mem_input: a stored CDF / quantile column or member named p@<t> / q@<q> / e@<k> becomes column "
+    "number (position of the name in the input's field list) of the input's 4-D threshold_scores / quantile_scores / "
+    "ensemble array, with input.thresholds / input.quantiles in the same order; the Lean driver keeps it as a named "
+    "3-D field",
     "Spec/DataCoord.lean: the coordinate-based specification (lookup by coordinate value, value sets, valid cases); "
     "it is what getScores_refines proves the model equal to, and it is evaluated by the driver (op specdata) next to "
     "the Python oracle on every data op",
 ]
 ASSUMPTIONS = [
-    "NoInf: stored values are finite or missing (an infinite stored value is dropped for its own input only; "
-    "generators include it on a separate stream judged by the oracle alone)",
+    "a non-finite stored value (+-inf, in any field of any input or of the climatology) is a missing value for every "
+    "input (the repaired cross-input step tests isfinite; the generators put +-inf into obs, fcst, PIT and climatology)",
     "ObsAgree: inputs that store observations store equal values wherever both are non-missing",
     "init times are whole seconds >= 0",
     "getScores_refines: Data.init succeeds and every stored array has the shape its input declares (wfInput; true by "
     "construction of the op encoding); nothing is assumed about the request or about repeated / NaN coordinates; "
-    "C01_same_case_set additionally ObsRangeAgree (no -obsrange, or ObsAgree)",
+    "C01_same_case_set additionally ObsRangeAgree (no -obsrange, or ObsAgree); C01_obs_identical_end_to_end: ObsAgree "
+    "and ObsRangeAgree, selections other than the whole array",
+    "field kinds: a stored CDF / quantile column (Threshold(t), Quantile(q)), an ensemble member (Ensemble(k)), the PIT "
+    "and other-score fields are named 3-D fields of an input; a requested threshold / quantile level matches a stored "
+    "one by equality (np.isclose's tolerance is not modelled; generated levels are 1/2, 1, 2 and 0.1, 0.5, 0.9); a CDF / "
+    "quantile column that an input does not store but can derive from its ensemble members is C08's subject and "
+    "outside these streams (driver reply DERIVED); no pre-aggregation (-T); no PIT randomisation (variable without "
+    "x0 / x1)",
+    "-obs FIELD / -fcst FIELD: the two name different stored fields, and the field -obs names is not requested directly "
+    "on the same Data object (the code keys its cache by the STORED field: -obsrange masking and borrowing on the "
+    "observation path would show through a direct request; contrived, recorded in MERGE_NOTES); getScoresF_refines: "
+    "Data.initF succeeds, wfInput",
+    "after a request that ends in an error exit the next request of an op goes to a new Data object (the program ends "
+    "at an error exit)",
 ]
 RULE = ("data.req: generated datasets of 1-4 inputs (+ optional climatology, subtract or divide), each dimension 1-4 "
-        "entries per input with partial overlap, different orders and rare repeats; fields obs/fcst/pit; missingness per "
-        "cell, per time slice, per field (obs absent from some inputs); up to 40 requests per dataset over every field "
-        "combination, 12 axes and every slice index; data.exh: exhaustive NaN patterns of 2 inputs x (2x1x2 cases) x "
-        "{obs,fcst}; non-trivial = some request returns >= 1 finite value")
+        "entries per input with partial overlap, different orders and rare repeats; fields obs/fcst and, each with "
+        "p = 0.3-0.4, the PIT, 1-3 stored CDF columns (the same list, another order or another set of thresholds per "
+        "input, rarely none), 1-3 stored quantile columns (likewise), 0-3 ensemble members (sizes may differ between "
+        "inputs), an other-score field (absent from an input with p = 0.1); missingness per cell, per time slice, per "
+        "field; observations absent from some inputs (any input may be the one that stores them, the climatology "
+        "included; with p = 0.05 none does: error exit); a non-finite value (+-inf) in obs / fcst / PIT / climatology "
+        "with p = 0.05 each; one station with another latitude in the later inputs with p = 0.1 (metadata of the first "
+        "file); a fifth of the datasets with -obs FIELD (other-score field or PIT; rarely a CDF column: error exit) and / "
+        "or -fcst FIELD (other score, PIT, stored CDF / quantile column); up to 40 requests per dataset over every "
+        "field combination ([x], [obs, x], [obs, fcst, x] / [x, fcst], pairs of extra fields; fields that some input "
+        "does not store: error exit), 12 axes and every slice index; data.noninterference: the request list again after "
+        "every finite value of every field except the observation (fcst, PIT, CDF / quantile columns, members, other "
+        "scores) of every OTHER scored input was changed; data.exh: exhaustive NaN patterns of 2 inputs x (2x1x2 "
+        "cases) x {obs,fcst}; non-trivial = some request returns >= 1 finite value")
 EXHAUSTIVE = {"quick": False, "thorough": True}
 EXHAUSTIVE_NOTE = "thorough: all 2^16 missingness patterns of 2 inputs x 4 cases x {obs, fcst}"
 LEVEL_TEXT = ("Lean theorems about the pure model of Data: after loading, a cell of a field is missing in one input iff it "
               "is missing in any input (incl. the climatology) and otherwise keeps its own value; hence the validity mask "
-              "and the contributing case list of a request do not depend on the input index (NoInf), inputs without "
+              "and the contributing case list of a request do not depend on the input index, inputs without "
               "observations get the first available observation array, and changing finite forecast values of another "
               "input changes nothing (non-interference). End to end (Proofs/DataRefine.lean, getScores_refines): every "
               "request to the index-based model returns exactly the coordinate-based specification (the requested values "
               "at the verified coordinates where every input and the climatology have usable values, identical error "
-              "exits); corollary C01_same_case_set: the contributing coordinates are the same for any two scored inputs. "
+              "exits); corollary C01_same_case_set: the contributing coordinates are the same for any two scored inputs; "
+              "C01_obs_identical_end_to_end: under ObsAgree the observation column handed out for two scored inputs is the "
+              "same vector. Field kinds (Proofs/DataFields.lean): stored CDF / quantile columns, ensemble members, PIT and "
+              "other scores are named fields, so every theorem covers them; -obs FIELD / -fcst FIELD: resolving the "
+              "requested field at request time as the code does loads what the unchanged loading step loads from the "
+              "inputs read that way (loadAllF_resolved, init_resolved, resolved_readsAs), and getScoresF_refines: every "
+              "request then returns the coordinate specification of the inputs read that way. "
               "The model is tied to the real Data class by differential correspondence; the coordinate-level Python "
               "oracle and the Lean specification (driver op specdata) both decide the property on the implementation.")
 TECHNIQUE = "Lean 4 proof over a hand-written model of Data + differential correspondence against the real class"
@@ -59,6 +95,8 @@ def gen_ops(tier, rng):
         ds = dg.gen_dataset(rng)
         if k % 6 == 5:
             ds.cfg["obsrange"] = (0.0, 2.0)     # -obsrange removes the same cases for every input
+        if k % 5 == 2:
+            ds = dg.add_field_options(ds, rng)  # -obs FIELD / -fcst FIELD
         dims = dg.oracle_dims(ds)
         if dims is None:
             yield "data.req", dg.enc_op(ds, [(["obs", "fcst"], 0, "no", None)])
